@@ -321,6 +321,52 @@ theorem C05_enum_value_preserved (style : EStyle) (t : CTy) (hint : t.isFloat = 
     (by intro ev nm h; simp [seenLookup] at h)
   simpa [emitEnum] using this
 
+/-- the name an emitted item defines -/
+def EItem.defines : EItem → String
+  | .lit n _ => n
+  | .aliasOf n _ => n
+
+theorem emitVariants_names (isRust : Bool) (t : CTy) (vs : List (String × Int)) (seen : List (EVal × String)) :
+    (emitVariants isRust t vs seen).map EItem.defines = vs.map (·.1) := by
+  induction vs generalizing seen with
+  | nil => rfl
+  | cons p vs ih =>
+    obtain ⟨n, v⟩ := p
+    simp only [emitVariants]
+    split
+    · cases isRust <;> simp [EItem.defines, ih]
+    · simp [EItem.defines, ih]
+
+/-- **C05 (enum, one item per enumerator).**  Under every style exactly one item is emitted per
+declared enumerator, under its own name, in declaration order — duplicates of a value are kept (as
+an alias or a second constant), never merged away or reordered. -/
+theorem C05_enum_names_in_order (style : EStyle) (t : CTy) (vs : List (String × Int)) :
+    (emitEnum style t vs).map EItem.defines = vs.map (·.1) ∧ (emitEnum style t vs).length = vs.length := by
+  have h := emitVariants_names style.isRust t vs []
+  refine ⟨h, ?_⟩
+  have := congrArg List.length h
+  simpa [emitEnum] using this
+
+/-- an alias is only emitted in the Rust-enum style, and only for a value seen before -/
+theorem C05_alias_only_rust_dup (isRust : Bool) (t : CTy) (vs : List (String × Int)) (seen : List (EVal × String))
+    (n tgt : String) (h : EItem.aliasOf n tgt ∈ emitVariants isRust t vs seen) : isRust = true := by
+  induction vs generalizing seen with
+  | nil => simp [emitVariants] at h
+  | cons p vs ih =>
+    obtain ⟨m, v⟩ := p
+    simp only [emitVariants] at h
+    split at h
+    · cases isRust
+      · simp only [Bool.false_eq_true, ite_false, List.mem_cons] at h
+        rcases h with h | h
+        · cases h
+        · exact ih _ h
+      · rfl
+    · simp only [List.mem_cons] at h
+      rcases h with h | h
+      · cases h
+      · exact ih _ h
+
 /-- **C05 (enum repr).**  The translated repr (`--translate-enum-integer-types`, Rust-enum
 style) has the width and signedness of the underlying C type; the untranslated repr is the C
 type itself.  Table obligation on `Generated.enumReprRows`. -/
